@@ -88,6 +88,15 @@ class Sys:
                 deco = functools.cache
             else:
                 deco = functools.lru_cache(maxsize=maxsize, typed=typed)
+        # a bystander: a second cache made the same way around another function, called with the same arguments just
+        # before every call of the one under test -- what one cache holds or counts is nothing to the other
+        if is_async:
+            async def other(*a, **kw):
+                return ("bystander", a, tuple(kw.items()))
+        else:
+            def other(*a, **kw):
+                return ("bystander", a, tuple(kw.items()))
+        self.bystander = deco(other) if form in ("func", "bare", "cache", "direct") else None
         self.insts = {}
         if form in ("func", "bare", "cache", "direct"):
             self.f = deco(fn)
@@ -118,6 +127,14 @@ class Sys:
         self.fail_next = fail
         before = len(self.invocations)
         f = self.target(n)
+        if self.bystander is not None:
+            try:
+                if self.lib == "functools":
+                    self.bystander(*a, **kw)
+                else:
+                    Task(self.bystander(*a, **kw), self.acct).run()
+            except TypeError:
+                pass        # an unhashable argument: refused there as here
         try:
             if self.lib == "functools":
                 r = f(*a, **kw)
